@@ -16,6 +16,7 @@ ASSUMPTIONS = ['CPython eval/ast of the printed text is the evaluation oracle',
                'dict order under sort_dict_keys is only required ascending when every pair of keys is '
                'orderable (plain scalars/tuples, no nan); otherwise only the set of pairs is compared']
 BUDGET = {'quick': {'random': 6000, 'shards': 16}, 'thorough': {'random': 400000, 'shards': 16}}
+FUZZ = {'runs': 40000}   # thorough tier: 16 atheris campaigns of this many executions over the same strategy and oracle
 
 LEAVES = [['str', ''], ['bytes', ''], ['str', "'"], ['float', '-0.0'], ['float', 'nan'], ['float', 'inf'],
           ['bool', True], ['int', 1], ['float', '1.0'], ['none'], ['ell'], ['tuple', []], ['fset', []],
